@@ -1,5 +1,6 @@
 import GlueVerif.Lemmas.Derived
 import GlueVerif.Lemmas.DerivedTable
+import GlueVerif.Lemmas.DerivedData
 /-!
 # C14 — derived attributes compute their defining expression and go with their inputs
 
@@ -65,6 +66,43 @@ theorem link_compute_elementwise {α : Type} (f : List α → α) (ravelled : Bo
 section table
 variable {κ ω α : Type} [DecidableEq κ]
 
+/-- **`data[k, view]` is the defining expression applied elementwise** — the whole pipeline, for
+every dataset and every view.  `t` is any component table of a dataset of shape `D` (`TableOk`:
+stored / pixel / world components are arrays of shape `D` with *any* strides; links read at least
+one attribute), `view` any normalised basic view (integers, slices with any step, in any
+combination), `k` any component all of whose inputs resolve (`refsOk`: derived components of
+derived components to any depth; binary links, user-function links, parsed commands).  Then
+`Data.__getitem__` as coded succeeds, returns exactly the view's shape (a scalar iff the view is
+0-d), and its element at every index `idx` is the Spec value of `k` at the data index the view
+addresses, `vmapN view idx`: stored values read off the array, derived ones their defining
+expression applied to the values of their inputs at that same data index. -/
+theorem getitem_elementwise (I : Interp ω α) (D : List Nat) (t : Table κ ω α) (view : List NAxis)
+    (hT : TableOk D t) (hv : view.length = D.length) (fuel : Nat) (k : κ)
+    (hk : refsOk fuel t k = true) :
+    ∃ res, getData I view (viewShapeN view) fuel t k = .ok res ∧ res.IsS (viewShapeN view) ∧
+      ∀ idx, InB idx (viewShapeN view) → specAt I fuel t (vmapN view idx) k = some (res.get idx) :=
+  getData_spec I D t view hT hv fuel k hk
+
+/-- **Computing on a view = taking the view of the full result** (`link_compute_view`): the
+element at `idx` of `data[k, view]` equals the element of `data[k]` (whole dataset) at the data
+index `didx` that the view addresses. -/
+theorem getitem_view_commutes (I : Interp ω α) (D : List Nat) (t : Table κ ω α) (view : List NAxis)
+    (hT : TableOk D t) (hv : view.length = D.length) (fuel : Nat) (k : κ)
+    (hk : refsOk fuel t k = true) :
+    ∃ rv rf, getData I view (viewShapeN view) fuel t k = .ok rv ∧
+      getData I (fullView D) D fuel t k = .ok rf ∧
+      ∀ idx didx, InB idx (viewShapeN view) → InB didx D →
+        vmapN view idx = didx.map Int.ofNat → rv.get idx = rf.get didx := by
+  obtain ⟨rv, h1, _, h3⟩ := getData_spec I D t view hT hv fuel k hk
+  obtain ⟨rf, g1, _, g3⟩ := getData_spec I D t (fullView D) hT (fullView_length D) fuel k hk
+  rw [viewShapeN_fullView] at g1 g3
+  refine ⟨rv, rf, h1, g1, ?_⟩
+  intro idx didx hi hd hmap
+  have e1 := h3 idx hi
+  have e2 := g3 didx hd
+  rw [vmapN_fullView D didx hd.length, ← hmap, e1] at e2
+  exact Option.some.inj e2
+
 /-- **`remove_component` removes the dependency closure and nothing else.**  For every component
 table `t` (any number of derived components inserted in any order, any dependency graph, even
 cyclic), every identifier `k` of the table and every fuel at least the table length: the
@@ -128,6 +166,25 @@ theorem update_id_breaks_dependents :
     specAt witnessInterp 3 (updateId false witnessTable 0 7) [2] 1 = none ∧
     specAt witnessInterp 3 (updateId true witnessTable 0 7) [2] 1 = some 3 := by
   decide
+
+/-- The hypotheses of `getitem_elementwise` are satisfiable by a non-trivial dataset: the witness
+table (a stored component and a derived one), a reversed strided view of it. -/
+example : TableOk [3] witnessTable ∧ refsOk 3 witnessTable 1 = true ∧
+    normView [3] [.slice none none (some (-1))] = some [.sl 2 3 (-1)] ∧
+    (getData witnessInterp [.sl 2 3 (-1)] [3] 3 witnessTable 1).toOption.map
+      (fun v => [v.get [0], v.get [1], v.get [2]]) = some [3, 2, 1] := by
+  refine ⟨?_, by decide, by decide, by decide⟩
+  intro k c h
+  have hk : k = 0 ∨ k = 1 := by
+    simp only [witnessTable, Table.find] at h
+    by_cases h0 : 0 = k
+    · exact Or.inl h0.symm
+    · by_cases h1 : 1 = k
+      · exact Or.inr h1.symm
+      · simp [h0, h1] at h
+  rcases hk with rfl | rfl
+  · simp [witnessTable, Table.find] at h; subst h; exact ⟨rfl, rfl⟩
+  · simp [witnessTable, Table.find] at h; subst h; simp [Expr.fromIds]
 
 /-- Removal on a diamond with a late-inserted reader: `a` stored, `b = a+1`, `c` stored,
 `d = b*c`, `e = c+1`.  Removing `a` removes `a, b, d` and keeps `c, e` in order. -/
